@@ -3,7 +3,7 @@
    itself parses back to the value, every tag through the tokenizer and its own parser). *)
 From hls Require Import Base Float Lex Kinds Types Tags Line Keys Media Master.
 From hls.Generated Require Import Tables.
-From hls.Proofs Require Import C04 Values Lexical TextLines AttrText TagText TagTextMedia TagTextVariant MasterText.
+From hls.Proofs Require Import C04 Values Lexical TextLines AttrText TagText TagTextMedia TagTextVariant MasterText ParsedWf.
 Open Scope N_scope.
 
 Theorem C04_items_roundtrip : forall p, validate_master p = true ->
@@ -112,6 +112,23 @@ Check C04_tags_text :
   /\ (forall s, wf_start s = true -> parse_start (print_start s) = Ok s).
 Print Assumptions C04_tags_text.
 
+(* ---------- the property as stated: for every value obtained by parsing ---------- *)
+(* every value the parser returns is well-formed (strings are unquote results, integers parse_uint
+   results, enum indices table indices, URI lines trimmed lines, ...), so the only hypothesis left is
+   the one on the std float conversions for FRAME-RATE / TIME-OFFSET values (`floats_master`,
+   decidable; the property's own domain: frame rates with at most 3 decimals) *)
+Theorem C04_parsed_wf : forall s p, parse_master s = Ok p -> wf_master_s p = true.
+Proof. exact parsed_master_wf. Qed.
+Check C04_parsed_wf : forall s p, parse_master s = Ok p -> wf_master_s p = true.
+Print Assumptions C04_parsed_wf.
+
+Theorem C04_roundtrip : forall s p, parse_master s = Ok p -> floats_master p = true ->
+  parse_master (print_master p) = Ok p.
+Proof. exact parsed_master_roundtrip. Qed.
+Check C04_roundtrip : forall s p, parse_master s = Ok p -> floats_master p = true ->
+  parse_master (print_master p) = Ok p.
+Print Assumptions C04_roundtrip.
+
 (* the hypotheses are met by a parsed playlist with every kind of tag (floats included) *)
 Example C04_text_example :
   match parse_master (lit "#EXTM3U
@@ -126,7 +143,7 @@ http://x/low.m3u8
 #EXT-X-START:TIME-OFFSET=-3.5,PRECISE=YES
 #EXT-X-FOO:bar
 ") with
-  | Ok p => wf_master p = true /\ validate_master p = true /\ List.length (ma_variants p) = 2%nat
+  | Ok p => wf_master p = true /\ floats_master p = true /\ validate_master p = true /\ List.length (ma_variants p) = 2%nat
   | _ => False
   end.
 Proof. vm_compute. repeat split. Qed.
